@@ -875,10 +875,14 @@ def run_history(ctx, ok, h, schema):
             elif op == "validate":
                 # validation is outside this property; on a frame with string row labels it raises on the unchanged tree
                 # (spreadsheet_validator: row label + 2), reported to the coordinator and not exercised here
-                if schema is not None and not any(isinstance(x, str) for x in want_labels):
+                # (likewise with duplicated row labels: `row_number in invalid rows`-style tests see a Series and raise
+                # ValueError).  Both are observations about validating DataFrames with unusual indexes (C07 quantifies
+                # over events files, which always have a RangeIndex), not clauses of this property.
+                if schema is not None and not any(isinstance(x, str) for x in want_labels) \
+                        and len(set(want_labels)) == len(list(want_labels)):
                     ti.validate(schema)
                 elif schema is not None:
-                    ctx.count("history:validate-not-run-on-string-row-labels")
+                    ctx.count("history:validate-not-run-on-string-or-duplicated-row-labels")
             else:
                 cur = op[-1]
                 ti.reset_column_mapper(mk(h[cur]))
